@@ -631,3 +631,65 @@ def check_quad_init(prog, report):
                      'every root cell is an axis-parallel square listed '
                      'counter-clockwise from its lower-left corner',
                      construct='%s: root cells' % name)
+
+
+def check_tolerances(prog, report):
+    """The coincidence / lookup tests of the boundary search are tolerance
+    based (vertices come from repeated midpoint arithmetic, inexact on the
+    pi square) and the tolerance stays far below the smallest admitted
+    segment length 2^-10."""
+    n = 0
+    for q in ('InitialMesh.refine_msh_bdr', 'InitialMesh.vertex_from_coords'):
+        fi = prog.func(IM, q)
+        for node in ast.walk(fi.node):
+            if not isinstance(node, ast.If):
+                continue
+            t = node.test
+            conj = t.values if isinstance(t, ast.BoolOp) and isinstance(
+                t.op, ast.And) else [t]
+            # tests that decide "same point": every conjunct compares a
+            # vertex coordinate with a target coordinate
+            calls = [c for c in conj if isinstance(c, ast.Call) and text(
+                c.func) in ('isclose', 'math.isclose', 'np.isclose')]
+            exact = [c for c in conj if isinstance(c, ast.Compare) and len(
+                c.ops) == 1 and isinstance(c.ops[0], ast.Eq) and any(
+                    isinstance(m, ast.Subscript) for m in ast.walk(c))
+                and 'axis' in text(c) and 'n_axis' in text(c)]
+            if not calls and not exact:
+                continue
+            if exact and any('n_axis' in text(c) for c in exact):
+                n += 1
+                report.violation(
+                    'R-tolerance', '%s exact coordinate test' % q,
+                    fi.where(node),
+                    'end points on the varying axis are compared with '
+                    'exact ==; midpoint-generated vertices differ from the '
+                    'target by rounding on non-dyadic domains (pi square)',
+                    construct=q + ': exact coordinate comparison')
+            for c in calls:
+                n += 1
+                kw = {k.arg: k.value for k in c.keywords}
+                ok = True
+                why = 'default tolerances'
+                for name, bound in (('abs_tol', 2.0**-13),
+                                    ('rel_tol', 1e-6)):
+                    if name in kw:
+                        v = kw[name]
+                        if not (isinstance(v, ast.Constant) and isinstance(
+                                v.value, (int, float))):
+                            raise AnalysisError(
+                                '%s: non-literal tolerance' % fi.where(c))
+                        why = '%s=%g' % (name, v.value)
+                        if v.value > bound:
+                            ok = False
+                report.check(
+                    ok, 'R-tolerance', '%s `%s`' % (q, text(c)[:44]),
+                    fi.where(c),
+                    'a tolerance of the point comparison must stay below '
+                    'the resolution the property admits (segments of '
+                    'length 2^-10): abs_tol <= 2^-13, rel_tol <= 1e-6; '
+                    'found ' + why,
+                    construct=q + ': isclose tolerance')
+    if n < 4:
+        raise AnalysisError('R-tolerance: only %d point comparisons found'
+                            % n)
